@@ -382,6 +382,12 @@ func (s *Server) serveStream(ctx context.Context, r io.Reader, w io.Writer, req 
 			}
 		}
 
+		// Logs the turn recorded on its CallContext precede the turn's
+		// batches, as the init handler's do for the header.
+		for _, logMsg := range iterCtx.drainLogs() {
+			s.logIPCWriteErr("turn-log-batch", req.Method, writeLogBatch(outputWriter, outputSchema, logMsg, s.serverID, req.RequestID))
+		}
+
 		// Flush all accumulated batches to output writer
 		for i, ab := range out.batches {
 			var writeErr error
